@@ -1,7 +1,7 @@
 (* Model/DispatchC18.v — entry point for running the C18 models on integer argument lists (see Model/DispatchC15.v).
    Strings travel as code point lists: 0 :: code points (normal), [1; exn code] (raise), [2] (None), [9] (bad call). *)
 From Coq Require Import ZArith List Bool String.
-From PV Require Import Lib.PyBase Model.LocaleBase Gen.Locales Model.DiffFormat Model.LocaleSession Model.PdBase Model.DiffHumans.
+From PV Require Import Lib.PyBase Model.LocaleBase Gen.Locales Model.DiffFormat Model.LocaleSession Model.PdBase Model.DiffHumans Model.DiffHumansNative.
 Import ListNotations.
 Open Scope Z_scope.
 
@@ -109,5 +109,26 @@ Definition dispatch (fn : Z) (args : list Z) : list Z :=
   | 14 (* dfh *), [loc; rs; absolute; y1;m1;d1;h1;i1;s1;u1;o1;t1;n1;b1;k1; y2;m2;d2;h2;i2;s2;u2;o2;t2;n2;b2;k2] =>
       let a := mkpdt y1 m1 d1 h1 i1 s1 u1 o1 (zb t1) n1 b1 (zb k1) in let b := mkpdt y2 m2 d2 h2 i2 s2 u2 o2 (zb t2) n2 b2 (zb k2) in
       if dh_in_domain a b then with_locale loc (fun L => of_res (diff_for_humans L (zb rs) a b (zb absolute))) else [3]
+  (* operands handed in as NATIVE values (Model/DiffHumansNative.v): an operand is the 12 integers above — the value as Interval.__init__
+     keeps it (pendulum.instance of a native value) — followed by has_tz and the tzinfo object id of the value AS GIVEN (what
+     Interval.__new__ sees); iv_abs is Interval's own `absolute`, absolute the flag of format_diff *)
+  | 15 (* diff_comps_native *), [rs; iv_abs; y1;m1;d1;h1;i1;s1;u1;o1;t1;n1;b1;k1;g1;j1; y2;m2;d2;h2;i2;s2;u2;o2;t2;n2;b2;k2;g2;j2] =>
+      let a := mkpdt y1 m1 d1 h1 i1 s1 u1 o1 (zb t1) n1 b1 (zb k1) in let b := mkpdt y2 m2 d2 h2 i2 s2 u2 o2 (zb t2) n2 b2 (zb k2) in
+      if dh_in_domain a b then
+        match diff_comps_native (zb rs) (zb iv_abs) (as_given a (zb g1) j1) (as_given b (zb g2) j2) a b with
+        | Ok (c, inv) => [0; c_years c; c_months c; c_weeks c; c_rdays c; c_hours c; c_minutes c; c_rsecs c; Z.b2z inv]
+        | Raise e => [1; exn_code e]
+        end
+      else [3]
+  | 16 (* format_diff_native *), [loc; rs; iv_abs; absolute; y1;m1;d1;h1;i1;s1;u1;o1;t1;n1;b1;k1;g1;j1; y2;m2;d2;h2;i2;s2;u2;o2;t2;n2;b2;k2;g2;j2] =>
+      let a := mkpdt y1 m1 d1 h1 i1 s1 u1 o1 (zb t1) n1 b1 (zb k1) in let b := mkpdt y2 m2 d2 h2 i2 s2 u2 o2 (zb t2) n2 b2 (zb k2) in
+      if dh_in_domain a b then
+        with_locale loc (fun L => of_res (format_diff_native L (zb rs) (zb iv_abs) (as_given a (zb g1) j1) (as_given b (zb g2) j2) a b (zb absolute)))
+      else [3]
+  | 17 (* in_words_native *), [loc; rs; iv_abs; y1;m1;d1;h1;i1;s1;u1;o1;t1;n1;b1;k1;g1;j1; y2;m2;d2;h2;i2;s2;u2;o2;t2;n2;b2;k2;g2;j2] =>
+      let a := mkpdt y1 m1 d1 h1 i1 s1 u1 o1 (zb t1) n1 b1 (zb k1) in let b := mkpdt y2 m2 d2 h2 i2 s2 u2 o2 (zb t2) n2 b2 (zb k2) in
+      if dh_in_domain a b then
+        with_locale loc (fun L => of_res (in_words_native L (zb rs) (zb iv_abs) (as_given a (zb g1) j1) (as_given b (zb g2) j2) a b [32]))
+      else [3]
   | _, _ => [9]
   end.
